@@ -1202,7 +1202,9 @@ def init_probe(chk, xvc, only=None):
                     if not r2.timed_out and not r2.failed:
                         out = rp.git("-c", "core.quotepath=off", "add", "-A", "-n").stdout
                         staged = [m.group(1) for m in re.finditer(r"^add '(.*)'$", out, re.M)]
-                        bad = [q for q in staged if q == "data.bin" or any(q.startswith(".xvc/" + cd + "/") for cd in XVC_CACHE_DIRS)]
+                        # (xvc's own auto-commit runs `git add .xvc`: what it took is in the index already)
+                        staged += [q for q in rp.git("-c", "core.quotepath=off", "ls-files", "--cached").stdout.split("\n") if q]
+                        bad = sorted(set(q for q in staged if q == "data.bin" or any(q.startswith(".xvc/" + cd + "/") for cd in XVC_CACHE_DIRS)))
                         if bad:
                             what = "after `xvc init` over the user's .gitignore %r and `xvc file track data.bin`, `git add -A` would stage %s" % (old_txt, ", ".join(bad[:3]))
             if what:
